@@ -9,10 +9,14 @@ import (
 	"net/http"
 	"net/http/httptest"
 	"os"
+	"os/exec"
 	"path/filepath"
+	"runtime"
 	"strconv"
 	"strings"
 	"sync"
+	"syscall"
+	"time"
 
 	"github.com/protomaps/go-pmtiles/pmtiles"
 	"verifharness/core"
@@ -102,6 +106,7 @@ var (
 	c11Server  *pmtiles.Server
 	c11Rec     *recBucket
 	c11HTTPURL string
+	c11CLIAddr string // `pmtiles serve <served directory>` (the real binary), when it could be started
 )
 
 type recBucket struct {
@@ -159,6 +164,55 @@ func c11Setup() {
 	mux.HandleFunc("/", func(w http.ResponseWriter, r *http.Request) { c11Server.ServeHTTP(w, r) })
 	srv := httptest.NewServer(mux)
 	c11HTTPURL = srv.Listener.Addr().String()
+	c11CLIAddr = startServeBinary(c11Served)
+}
+
+// startServeBinary runs `pmtiles serve <dir>` on a free loopback port for the rest of this process's life
+// (the child is killed when the harness exits) and returns its address, or "" when it could not be started
+func startServeBinary(dir string) string {
+	bin := os.Getenv("VERIF_CLI")
+	if bin == "" {
+		return ""
+	}
+	for attempt := 0; attempt < 3; attempt++ {
+		pl, err := net.Listen("tcp", "127.0.0.1:0")
+		if err != nil {
+			return ""
+		}
+		port := pl.Addr().(*net.TCPAddr).Port
+		pl.Close()
+		exited := make(chan struct{})
+		started := make(chan bool)
+		go func() {
+			// Pdeathsig is tied to the starting thread: it is kept for as long as the child runs
+			runtime.LockOSThread()
+			cmd := exec.Command(bin, "serve", dir, "--interface=127.0.0.1", fmt.Sprintf("--port=%d", port), "--cache-size=1", "--public-url=http://public")
+			cmd.SysProcAttr = &syscall.SysProcAttr{Pdeathsig: syscall.SIGKILL}
+			if err := cmd.Start(); err != nil {
+				started <- false
+				return
+			}
+			started <- true
+			cmd.Wait()
+			close(exited)
+		}()
+		if !<-started {
+			return ""
+		}
+		addr := fmt.Sprintf("127.0.0.1:%d", port)
+		for i := 0; i < 200; i++ {
+			if c, err := net.DialTimeout("tcp", addr, 100*time.Millisecond); err == nil {
+				c.Close()
+				return addr
+			}
+			select {
+			case <-exited:
+				i = 200 // the port was taken in between: another attempt
+			case <-time.After(25 * time.Millisecond):
+			}
+		}
+	}
+	return ""
 }
 
 func (C11) Serial() bool { return true } // the recording bucket attributes keys to the request in flight
@@ -239,8 +293,8 @@ func (C11) Branch(line, goOut string) string {
 }
 
 // raw request over TCP to the real listener (ServeMux in front, as `pmtiles serve` mounts it)
-func rawHTTP(path string) (string, string) {
-	conn, err := net.Dial("tcp", c11HTTPURL)
+func rawHTTP(addr, path string) (string, string) {
+	conn, err := net.Dial("tcp", addr)
 	if err != nil {
 		return "", ""
 	}
@@ -289,8 +343,17 @@ func (C11) Oracle(line, goOut string) string {
 				}
 			}
 			if ok {
-				if _, body := rawHTTP(p); strings.Contains(body, "OUTSIDE:") {
+				if _, body := rawHTTP(c11HTTPURL, p); strings.Contains(body, "OUTSIDE:") {
 					return "raw HTTP request " + p + " returned data of an archive outside the served directory"
+				}
+				if c11CLIAddr != "" {
+					st, body := rawHTTP(c11CLIAddr, p)
+					if strings.Contains(body, "OUTSIDE:") {
+						return "raw HTTP request " + p + " to `pmtiles serve` returned data of an archive outside the served directory"
+					}
+					if st == "" {
+						return "`pmtiles serve` did not answer the raw HTTP request " + p
+					}
 				}
 			}
 		}
